@@ -153,3 +153,31 @@ Definition init (c : cfg) : state := (mkFs c [] [], []).
 
 Definition writes_of (ops : list op) : list (list sample) :=
   flat_map (fun o => match o with OWrite l => [l] | _ => [] end) ops.
+
+(* ---- writer sessions ----
+   DigitalMetadataWriter(dir, subdir cadence, file cadence, numerator, denominator, prefix) on a
+   directory that already holds dmd_properties.h5 runs _parse_properties: every parameter must equal
+   the stored one, else ValueError("Mismatched ...") and nothing is touched. (The file-name prefix is
+   compared too; it is not part of cfg and is covered by the correspondence only.) *)
+Definition cfg_eqb (a b : cfg) : bool :=
+  (rn a =? rn b) && (rd a =? rd b) && (fc a =? fc b) && (sc a =? sc b).
+
+Definition open_writer (fs : fsys) (c' : cfg) : option cfg :=
+  if cfg_eqb (f_props fs) c' then Some (f_props fs) else None.
+
+(* a session = the parameters given to the constructor and the write calls made through it *)
+Fixpoint run_sessions (fs : fsys) (ss : list (cfg * list (list sample))) : fsys :=
+  match ss with
+  | [] => fs
+  | (c', calls) :: r =>
+      match open_writer fs c' with
+      | None => run_sessions fs r
+      | Some c =>
+          run_sessions (mkFs (f_props fs)
+                             (fold_left (fun st l => fst (write_call Exact c st l)) calls (f_ents fs))
+                             (f_bad fs)) r
+      end
+  end.
+
+Definition accepted_calls (c : cfg) (ss : list (cfg * list (list sample))) : list (list sample) :=
+  flat_map (fun s => if cfg_eqb c (fst s) then snd s else []) ss.
